@@ -421,14 +421,18 @@ def defuse_of(fn_or_body):
     return c
 
 
-def backward_slice(body, start_locals, through_calls=True, max_steps=100000):
+def backward_slice(body, start_locals, through_calls=True, max_steps=100000, control=False):
     """set of locals on which the given locals are data-dependent (flow-insensitive over defs),
-    and the set of call terminators (bb index) met on the way"""
+    and the set of call terminators (bb index) met on the way.  With control=True the slice also
+    follows control dependence: the discriminant of every switch that dominates a defining block
+    and can bypass it (the definition happens only on some of its branches)."""
     du = defuse_of(body)
     seen = set()
     calls = set()
     st = list(start_locals)
     steps = 0
+    cfg = cfg_of(body) if control else None
+    ctrl_done = set()
     while st and steps < max_steps:
         steps += 1
         l = st.pop()
@@ -436,6 +440,18 @@ def backward_slice(body, start_locals, through_calls=True, max_steps=100000):
             continue
         seen.add(l)
         for (bb, idx, node) in du.defs.get(l, []):
+            if control and bb not in ctrl_done:
+                ctrl_done.add(bb)
+                for sb, blk in enumerate(body["bbs"]):
+                    t = blk["t"]
+                    if t["k"] != "switch" or sb == bb or not cfg.dominates(sb, bb):
+                        continue
+                    succs = cfg.succ[sb]
+                    if len(succs) < 2:
+                        continue
+                    reach_all = all(bb in cfg.reach_from(x) for x in succs)
+                    if not reach_all:
+                        walk_places(t["d"], lambda p: st.append(p["l"]))
             if idx == "t":
                 calls.add(bb)
                 if through_calls:
